@@ -38,6 +38,12 @@ class WeightedGraph:
             self.E[i, j] = value
             self.incoming[j].add(i)
             self.outgoing[i].add(j)
+        elif (i, j) in self.E:
+            # an update that cancels an existing edge (possible when weights are signed)
+            # removes it; keeping the old weight would be wrong
+            del self.E[i, j]
+            self.incoming[j].discard(i)
+            self.outgoing[i].discard(j)
         return self
 
     def closure(self):
